@@ -329,6 +329,14 @@ func checkPlainGraph1(run *core.Run, m *openfgav1.AuthorizationModel, rebuilds i
 		ct, rt := g.GetCycles().VerifFlags()
 		run.Eval(1)
 		run.Count("cycle_queries", 1)
+		// "reversing flips every edge and the direction and nothing else": a cycle reversed is the same cycle
+		if rev != nil {
+			rct, rrt := rev.GetCycles().VerifFlags()
+			run.Eval(1)
+			if rct != ct || rrt != rt {
+				run.Violation("cycle-flags-change-under-reversal", c, fmt.Sprintf("compileTime=%v runtime=%v as on the graph itself", ct, rt), fmt.Sprintf("reversed graph: compileTime=%v runtime=%v\n%s", rct, rrt, pp))
+			}
+		}
 		// pure computed cycle among >= 2 relations
 		comp := R.SCCs(func(e *ref.Edge) bool { return e.Type == "computed" }, func(n *ref.Node) bool { return n.Kind == ref.KRel })
 		size := map[int]int{}
